@@ -234,6 +234,33 @@ Definition into_answer (z : node) (a : nanswer) : answer :=
 
 Definition query (z : node) (q : name) (qt : rtype) : answer := into_answer z (query_apex z q qt).
 
+(* ------------------------------------------------------------------ ReadZone::walk *)
+(* every RRset handed to the WalkOp: owner, RRset, at_zone_cut.  query_node in
+   walk mode reports the node's RRsets, then the special: a cut reports NS, DS
+   and one RRset per glue record (with the glue record's owner) and is not
+   descended; a CNAME is reported as a one-record RRset *)
+Definition wrec : Type := name * rrset * bool.
+Definition glue_rrset (g : grec) : rrset := mkRrset (g_type g) (g_ttl g) [g_data g].
+
+Fixpoint walk_node (path : name) (n : node) : list wrec :=
+  let 'Node rs sp cs := n in
+  let kids := (fix go (cs : list (label * node)) : list wrec :=
+                 match cs with [] => [] | (l, c) :: cs' => walk_node (path ++ [l]) c ++ go cs' end) cs in
+  map (fun r => (path, r, false)) rs ++
+  match sp with
+  | Some (Cut c) =>
+      (path, c_ns c, true) :: (match c_ds c with Some d => [(path, d, true)] | None => [] end) ++
+      map (fun g => (g_owner g, glue_rrset g, true)) (c_glue c)
+  | Some (Cname c) => (path, mkRrset rt_cname (rr_ttl c) [rr_data c], false) :: kids
+  | _ => kids
+  end.
+
+Definition walk (z : node) : list wrec :=
+  let 'Node rs _ cs := z in
+  map (fun r => ([], r, false)) rs ++
+  (fix go (cs : list (label * node)) : list wrec :=
+     match cs with [] => [] | (l, c) :: cs' => walk_node [l] c ++ go cs' end) cs.
+
 (* ------------------------------------------------------------------ WriteNode (write.rs) *)
 Definition is_apex (p : name) : bool := match p with [] => true | _ => false end.
 
@@ -502,3 +529,4 @@ Definition run_ops (ops : list op) : state := run_from 0 init_state ops.
 (* what the driver calls *)
 Definition c08_run (ops : list op) : node * list (N * N) := let s := run_ops ops in (s_comm s, s_errs s).
 Definition c08_query (z : node) (q : name) (qt : rtype) : answer := query z q qt.
+Definition c08_walk (z : node) : list wrec := walk z.
